@@ -203,7 +203,9 @@ let judge op args got =
       let cb = Zar.of_string_base 16 (arg 0) in
       let cs = List.map z (List.tl args) in
       let spec = Model.from_chunks_spec cb cs in
-      expect ~extra:(same (Zar.equal (Model.from_chunks_asis w64 cb cs) spec)) ("ok " ^ hx spec) got
+      (* the word loops of chunks_to_words (IoChunksW: shl_in_place + add_in_place on the allocated buffers) *)
+      let words_ok = (match Model.from_chunks_words_z w64 cb cs with Model.Ok v -> Zar.equal v spec | _ -> false) in
+      expect ~extra:(same (Zar.equal (Model.from_chunks_asis w64 cb cs) spec && words_ok)) ("ok " ^ hx spec) got
   | _ -> fail ("unknown-op-" ^ op)
 
 let () = serve judge
